@@ -36,7 +36,10 @@ fn default_close() -> CloseS {
 fn emit(em: &mut Emitter, stream: &'static str, spec: &Spec, extra_tags: &[String]) {
     let ran = match catch(std::panic::AssertUnwindSafe(|| run(spec))) {
         Ok(r) => r,
-        Err(_) => panicked(),
+        Err(msg) => {
+            eprintln!("harness-level panic: {msg}");
+            panicked()
+        }
     };
     let mut tags = ran.tags;
     tags.extend(extra_tags.iter().cloned());
@@ -93,10 +96,44 @@ fn all_filters(lay: &[(usize, usize, usize)], n_ex: usize) -> Vec<FilterS> {
     fs
 }
 
+/// every public entry point to the two mechanisms:
+/// 0 Engine::process(Command), 1 Engine::action(Command), 2 the trait method (CancelOrders::cancel_orders /
+/// ClosePositions::close_positions) called directly on the Engine, 3 / 4 OnDisconnectStrategy::on_disconnect
+/// calling it on an account / market Reconnecting notice, 5 OnTradingDisabled::on_trading_disabled calling it
+const PATHS: usize = 6;
+fn entry(cmd: &CmdS, path: usize) -> OpS {
+    match path {
+        0 => OpS::Process(EvS::Command(cmd.clone())),
+        1 => OpS::Action(cmd.clone()),
+        2 => OpS::Call(cmd.clone()),
+        h => OpS::Hook((h - 3) as u8, cmd.clone()),
+    }
+}
+fn one(op: OpS, many1: bool) -> StepS {
+    StepS { op, g: GS::default(), close: default_close(), many1 }
+}
+/// the command issued `times` times in a row through one entry point (the trading-disabled hook only
+/// fires on the enabled -> disabled transition, so trading is re-enabled before each repeat)
 fn cmd_steps(cmd: &CmdS, path: usize, times: usize, many1: bool) -> Vec<StepS> {
-    let op = |c: &CmdS| if path == 0 { OpS::Process(EvS::Command(c.clone())) } else { OpS::Action(c.clone()) };
-    // the command, issued `times` times in a row
-    (0..times).map(|_| StepS { op: op(cmd), g: GS::default(), close: default_close(), many1 }).collect()
+    let mut v = vec![];
+    for k in 0..times {
+        if path == 5 && k > 0 {
+            v.push(one(OpS::Process(EvS::Trading(true)), false));
+        }
+        v.push(one(entry(cmd, path), many1));
+    }
+    v
+}
+/// ... then once more with a WIDER filter (None) through the same entry point
+fn widen(cmd: &CmdS, path: usize, v: &mut Vec<StepS>) {
+    let wide = match cmd {
+        CmdS::CancelOrders(_) => CmdS::CancelOrders(FilterS::None),
+        _ => CmdS::ClosePositions(FilterS::None),
+    };
+    if path == 5 {
+        v.push(one(OpS::Process(EvS::Trading(true)), false));
+    }
+    v.push(one(entry(&wide, path), false));
 }
 
 const TIMES: [i64; 12] =
@@ -146,6 +183,7 @@ fn table_state(links: Vec<LinkS>) -> Spec {
         l1,
     };
     Spec {
+        builder: false,
         exset: 1,
         trading: false,
         links,
@@ -218,6 +256,27 @@ fn table(em: &mut Emitter) {
             }
         }
     }
+    // the less-used public entry points (direct trait call, the three strategy hooks), for every
+    // sixth filter: the call twice (the repeat must request nothing new), then with a wider filter
+    for (fi, f) in filters.iter().enumerate() {
+        if fi % 6 != 1 {
+            continue;
+        }
+        for (ci, cmd) in [CmdS::CancelOrders(f.clone()), CmdS::ClosePositions(f.clone())].iter().enumerate() {
+            for path in 2..PATHS {
+                let mut s = table_state(vec![LinkS::Open, if path % 2 == 0 { LinkS::Open } else { LinkS::Missing }, LinkS::Open]);
+                s.trading = path == 5;
+                s.builder = path == 3; // link map built through ExecutionBuilder (link-less exchange in the middle)
+                s.steps = cmd_steps(cmd, path, 2, false);
+                widen(cmd, path, &mut s.steps);
+                let tags = vec![
+                    format!("table_{}_{}", if ci == 0 { "cancel" } else { "close" }, filter_kind(f)),
+                    format!("table_entry{}", path),
+                ];
+                emit(em, "table", &s, &tags);
+            }
+        }
+    }
 }
 
 // ---- random states ---------------------------------------------------------------------------------
@@ -271,7 +330,7 @@ fn gen_state(r: &mut Rng, adversarial: bool) -> Spec {
         });
     }
     let n_links = if adversarial { (n_ex as i64 + *r.pick(&[-1i64, 0, 1])).max(0) as usize } else { n_ex };
-    let links = (0..n_links)
+    let links: Vec<LinkS> = (0..n_links)
         .map(|_| {
             if r.chance(if adversarial { 4 } else { 1 }, 10) {
                 *r.pick(&[LinkS::Closed, LinkS::Unhealthy, LinkS::Missing])
@@ -280,7 +339,15 @@ fn gen_state(r: &mut Rng, adversarial: bool) -> Spec {
             }
         })
         .collect();
-    Spec { exset: r.below(3) as u8, trading: adversarial && r.chance(1, 3), links, instruments, steps: vec![] }
+    // a quarter of the states get their link map through the public ExecutionBuilder (a link is then
+    // either there or not, one entry per exchange)
+    let builder = r.chance(1, 4);
+    let links: Vec<LinkS> = if builder {
+        (0..n_ex).map(|k| if links.get(k) == Some(&LinkS::Open) { LinkS::Open } else { LinkS::Missing }).collect()
+    } else {
+        links
+    };
+    Spec { builder, exset: r.below(3) as u8, trading: adversarial && r.chance(1, 3), links, instruments, steps: vec![] }
 }
 
 fn gen_filter(r: &mut Rng, lay: &[(usize, usize, usize)], n_ex: usize, adversarial: bool) -> FilterS {
@@ -338,8 +405,14 @@ fn gen_case(r: &mut Rng, adversarial: bool) -> Spec {
     for _ in 0..n_cmds {
         let f = gen_filter(r, &lay, n_ex, adversarial);
         let cmd = if r.chance(1, 2) { CmdS::CancelOrders(f) } else { CmdS::ClosePositions(f) };
-        let path = r.below(2) as usize;
+        let path = r.below(PATHS as u64) as usize;
+        if path == 5 && !s.trading {
+            s.steps.push(one(OpS::Process(EvS::Trading(true)), false));
+        }
         let mut steps = cmd_steps(&cmd, path, 2 + r.below(2) as usize, r.chance(1, 4));
+        if r.chance(1, 3) {
+            widen(&cmd, path, &mut steps);
+        }
         if r.chance(1, 3) {
             // something happens between the two issues: a failed cancel puts an order back to Open
             // (it must then be requested again), a fill changes a position, a link comes back
@@ -363,7 +436,7 @@ fn gen_case(r: &mut Rng, adversarial: bool) -> Spec {
             };
             steps.insert(1, StepS { op: mid, g: GS::default(), close: default_close(), many1: false });
         }
-        if adversarial && r.chance(1, 3) {
+        if adversarial && path < 2 && r.chance(1, 3) {
             // a strategy request generated in the same step as the command (only when enabled)
             steps[0].g = GS {
                 cancels: vec![],
@@ -384,7 +457,7 @@ fn main() {
     match args.mode.as_str() {
         "gen" => {
             let mut r = Rng::new(args.seed);
-            let (n_rand, n_adv) = if args.tier == "thorough" { (3000, 1500) } else { (200, 100) };
+            let (n_rand, n_adv) = if args.tier == "thorough" { (3000, 1500) } else { (140, 70) };
             table(&mut em);
             for _ in 0..n_rand {
                 let s = gen_case(&mut r, false);
